@@ -23,7 +23,7 @@ absent / null parameters) x address forms {unix path with several slashes, unix:
 sequences stripped when coloured), equals the parameters of the successful replies in order; exit status 0 iff \
 every expected reply arrived and none was an error; on an error reply stderr names the error (short name for the \
 standard ones) and shows its parameter / parameters; the fake service received exactly the method, the `more` flag \
-and the arguments given. Non-trivial: --more with k >= 1, an error reply, a closed connection, or a nested reply \
+and the arguments given. Every other abstract name contains slashes and dots, every other tcp address names the host. Non-trivial: --more with k >= 1, an error reply, a closed connection, or a nested reply \
 value; distinct by (script, values, address form, color).";
 
 #[derive(Clone, Debug)]
